@@ -90,12 +90,15 @@ def run_cmd(cmd, cwd=None, timeout=3600, env=None):
 
 
 def modules_of(pid: str):
-    """Props/<pid>.lean plus, when present, Props/<pid>Locks.lean (lock-level theorems that need lemma files which themselves
-    import Props/<pid>.lean); both use namespace TV.<pid>."""
+    """Props/<pid>.lean plus every Props/<pid><Suffix>.lean (e.g. C14Locks: lock-level theorems that need lemma files which
+    themselves import Props/<pid>.lean; C07Term: termination); all use namespace TV.<pid>."""
+    import glob, re
     out = []
-    for name in (pid, pid + 'Locks'):
-        if os.path.exists(os.path.join(LEAN, 'Tapeverif', 'Props', name + '.lean')):
-            out.append(name)
+    d = os.path.join(LEAN, 'Tapeverif', 'Props')
+    if os.path.exists(os.path.join(d, pid + '.lean')): out.append(pid)
+    for f in sorted(glob.glob(os.path.join(d, pid + '*.lean'))):
+        name = os.path.basename(f)[:-5]
+        if name != pid and re.fullmatch(pid + r'[A-Z][A-Za-z]*', name): out.append(name)
     return out
 
 
